@@ -25,7 +25,7 @@ class Prop(PropBase):
         ks = [f'K anglecheck {v}' for v in (-9001, -9000, -8999, 0, 8999, 9000, 9001, 65535, -65535, 20000)]
         out.append(('kern', '\n'.join(ks) + '\n'))
         scn_all = []
-        reps = 3 if tier == 'quick' else 24
+        reps = 4 if tier == 'quick' else 24
         for r in range(reps):
             for t in scen.MECH + (['RSM1', 'RSMX'] if r == 0 else []):
                 l = self.L[t]
@@ -46,8 +46,9 @@ class Prop(PropBase):
                     # packets that are not "of the right length and identifier" but carry a perfectly good table: they must not open the gate
                     ['badid', 'valid2'], ['badid'], ['badlen', 'valid2'], ['badid', 'badlen', 'valid', 'badid'], ['badid', 'valid2']])
                 # every type meets every kind of table / packet in the first three scenarios, whatever the seed
-                if r < 3:
-                    plan = [['ff', 'valid', 'valid2'], ['badid', 'range', 'valid2', 'ff'], ['badlen', 'edge', 'dup', 'valid']][r]
+                if r < 4:
+                    # each kind of table gets to be the first accepted one (the latch keeps it for the session)
+                    plan = [['ff', 'valid', 'valid2'], ['badid', 'range', 'valid2', 'ff'], ['badlen', 'dup', 'valid'], ['edge', 'ff', 'valid2']][r]
                 idpos = 2 + (r * 5 + len(scn_all)) % (len(l.difop_id) - 2)      # every identifier byte behind the two dispatch bytes in turn
                 for kind in plan:
                     for k in range(rng.choice([0, 1, 2])):
